@@ -106,6 +106,8 @@ pub use shred_derive::SystemData;
 pub use crate::dispatch::AsyncDispatcher;
 #[cfg(feature = "parallel")]
 pub use crate::dispatch::{Par, ParSeq, RunWithPool, Seq};
+#[cfg(feature = "verif-hooks")]
+pub use crate::dispatch::VerifLayout;
 pub use crate::{
     dispatch::{
         BatchAccessor, BatchController, BatchUncheckedWorld, Dispatcher, DispatcherBuilder,
